@@ -313,7 +313,7 @@ def bad_body(case):
 @st.composite
 def ill_case(draw):
     nord = draw(st.sampled_from([4, 3, 2, 5, 1, 4, 3, 2]))
-    kind = draw(st.sampled_from(['gap', 'gap', 'three-islands', 'zero-weight-run', 'all-zero-weight', 'few-points', 'lone-end-point']))
+    kind = draw(st.sampled_from(['gap', 'gap', 'three-islands', 'zero-weight-run', 'all-zero-weight', 'few-points', 'lone-end-point', 'zero-weight-tail', 'zero-weight-head']))
     n = draw(st.integers(12, 120))
     u = [0.5 * (1 + draw(uf)) for _ in range(n)]
     if kind == 'gap':
@@ -345,6 +345,10 @@ def ill_body(case):
         w[(x >= a) & (x <= a + case['run'][1] * (x[-1] - x[0]) + 1.0)] = 0
     elif case['kind'] == 'all-zero-weight':
         w[:] = 0
+    elif case['kind'] == 'zero-weight-tail':
+        w[-max(1, int(case['run'][1] * 10)):] = 0          # the last few points carry no weight (beyond the last breakpoint of the good data)
+    elif case['kind'] == 'zero-weight-head':
+        w[:max(1, int(case['run'][1] * 10))] = 0
     statuses = []
     if case['how'] == 'iterfit':
         if not (w > 0).any():
